@@ -22,6 +22,7 @@ QUICK_YEARS = sorted(set(list(range(1, 41)) + list(range(1580, 1621)) + list(ran
 
 
 class Years(Sub):
+    ambient = True
     name = "years"
     kind = "enum"
     backends = ("rust",)
@@ -65,11 +66,12 @@ def check_date(d: D.date, deep: bool):
         req(p.days_in_month == calendar.monthrange(d.year, d.month)[1], f"{nm}.days_in_month wrong", date=str(d), got=p.days_in_month)
         req(p.quarter == (d.month - 1) // 3 + 1, f"{nm}.quarter wrong", date=str(d), got=p.quarter)
         req(p.is_leap_year() == calendar.isleap(d.year), f"{nm}.is_leap_year wrong", date=str(d))
-        wom = next(i for i, row in enumerate(calendar.monthcalendar(d.year, d.month), 1) if d.day in row)
+        wom = next(i for i, row in enumerate(MONCAL.monthdayscalendar(d.year, d.month), 1) if d.day in row)
         req(p.week_of_month == wom, f"{nm}.week_of_month wrong", date=str(d), got=p.week_of_month, expected=wom)
 
 
 class Dates(Sub):
+    ambient = True
     name = "dates"
     kind = "enum"
     backends = ("rust",)
@@ -108,6 +110,7 @@ class Dates(Sub):
         return False, "year-row"
 
 
+MONCAL = calendar.Calendar(calendar.MONDAY)   # the oracle must not depend on calendar.setfirstweekday() either
 LO = int((D.datetime(1, 1, 3) - EP).total_seconds())
 HI = int((D.datetime(9999, 12, 29) - EP).total_seconds())
 
@@ -188,6 +191,7 @@ from vf import oracle_tz as T  # noqa: E402
 
 
 class AwareGetters(Sub):
+    ambient = True
     name = "aware_getters_across_zones"
     backends = ("rust", "py")
     n = {"quick": 6000, "thorough": 150000}
@@ -209,7 +213,7 @@ class AwareGetters(Sub):
             d = D.date(r.year, r.month, r.day)
             dates.add(d)
             exp = {"day_of_week": d.weekday(), "day_of_year": d.timetuple().tm_yday, "week_of_year": d.isocalendar()[1], "days_in_month": calendar.monthrange(d.year, d.month)[1],
-                   "quarter": (d.month - 1) // 3 + 1, "week_of_month": next(i for i, row in enumerate(calendar.monthcalendar(d.year, d.month), 1) if d.day in row)}
+                   "quarter": (d.month - 1) // 3 + 1, "week_of_month": next(i for i, row in enumerate(MONCAL.monthdayscalendar(d.year, d.month), 1) if d.day in row)}
             for k, v in exp.items():
                 req(int(getattr(p, k)) == v, f"DateTime.{k} does not describe the value's own local date", value=r.isoformat(), got=int(getattr(p, k)), expected=v)
             req(p.is_leap_year() == calendar.isleap(d.year), "DateTime.is_leap_year() does not describe the value's own local year", value=r.isoformat())
@@ -236,6 +240,7 @@ def _skipped_first_midnights():
 
 
 class GettersSkippedMidnight(Sub):
+    ambient = True
     name = "getters_month_without_first_midnight"
     kind = "enum"
     backends = ("rust", "py")
@@ -261,7 +266,7 @@ class GettersSkippedMidnight(Sub):
         for day in (1, 2, 8, 15, last):
             d = D.date(y, m, day)
             exp = {"day_of_week": d.weekday(), "day_of_year": d.timetuple().tm_yday, "week_of_year": d.isocalendar()[1], "days_in_month": last,
-                   "quarter": (m - 1) // 3 + 1, "week_of_month": next(i for i, row in enumerate(calendar.monthcalendar(y, m), 1) if day in row)}
+                   "quarter": (m - 1) // 3 + 1, "week_of_month": next(i for i, row in enumerate(MONCAL.monthdayscalendar(y, m), 1) if day in row)}
             native = D.datetime(y, m, day, 12, tzinfo=T.zi(z))
             vals = {"instance": pendulum.instance(native), "constructor": pendulum.datetime(y, m, day, 12, tz=z),
                     "converted": pendulum.instance(native.astimezone(D.timezone.utc)).in_timezone(z)}
